@@ -319,3 +319,5 @@ from contracts.any_units import normalize_default_unit, typehint_instantiate_uni
 UNITS += [typehint_instantiate_unit("C14"), normalize_default_unit("C14")]
 from contracts.any_units import is_single_subclass_typehint_unit, is_subclass_typehint_unit  # noqa: E402
 UNITS += [is_subclass_typehint_unit("C14"), is_single_subclass_typehint_unit("C14")]
+from contracts.instantiators import add_instantiator_unit, class_instantiator_unit, get_class_instantiator_unit, get_instantiators_unit  # noqa: E402
+UNITS += [add_instantiator_unit("C14"), get_instantiators_unit("C14"), class_instantiator_unit("C14"), get_class_instantiator_unit("C14")]
